@@ -49,7 +49,7 @@ struct Life {
    std::map<const void*, std::string> tags;          // how each address was obtained (first route)
    void addr(const void* p, const std::string& how) { addrs.push_back(p); tags.emplace(p, how); }
    std::vector<std::pair<std::uint32_t, int>> ticks;     // (ticket, threads inside at that moment)
-   long long api_batches = 0, shadow_fails = 0, printed = 0, mirror_requests = 0;
+   long long api_batches = 0, shadow_fails = 0, printed = 0, mirror_requests = 0, first_words_oversize = 0;
    std::vector<std::string> mirror_fails;
 };
 
@@ -99,6 +99,13 @@ void run_life(const LifeSpec& spec, Life& L)
    L.lex.emplace();
    L.unit = std::make_unique<impl::Translation_unit>(*L.lex);
    impl::Lexicon& lex = *L.lex; const Lexicon& CL = lex;
+   // the very first word of some lives is beyond the arena's oversize threshold: what a Lexicon allocates first, whatever its
+   // size, is as private as everything later; the word is read back when the life is over
+   const String* first_word = nullptr; std::size_t first_word_size = 0;
+   if ((spec.seed >> 5) % 3 != 0) {
+      std::string w(65537 + std::size_t(spec.seed % 7) * 9001, 'Q'); first_word_size = w.size();
+      first_word = &lex.get_string(widen(w)); L.addr(first_word, "oversize first word");
+   }
    L.mirror_requests += mirror_requests(lex, mirror_report);
    auto& unit = *L.unit;
    Rng rng(spec.seed);
@@ -206,6 +213,11 @@ void run_life(const LifeSpec& spec, Life& L)
       tr << "nest:" << spec.nest << "\n" << os.str();
       L.printed += (long long)os.str().size();
    }
+   if (first_word) {
+      auto v = first_word->characters(); std::size_t good = 0; for (auto ch : v) good += (ch == u8'Q');
+      tr << "first:" << (v.size() == first_word_size) << (good == first_word_size) << (&lex.get_string(v) == first_word) << "\n";
+      L.first_words_oversize = 1;
+   }
    L.trace = tr.str();
    if (spec.destroy_early) { L.sweep.reset(); L.modules.clear(); L.more_units.clear(); L.unit.reset(); L.lex.reset(); }
    g_inside.fetch_sub(1, std::memory_order_relaxed);
@@ -261,7 +273,8 @@ static void body(Ctx& C)
    }
    const int thread_counts_quick[] = { 2, 3, 4, 8, 16 };
    const int thread_counts_thorough[] = { 2, 3, 4, 8, 16, 32 };
-   const int rounds = aux ? 3 : (C.thorough ? 150 : 6);
+   const int rounds = std::getenv("VERIF_C20_ROUNDS") ? std::atoi(std::getenv("VERIF_C20_ROUNDS")) : aux ? 3 : (C.thorough ? 60 : 6);       // ThreadSanitizer keeps every distinct allocation stack for the life of the process (~100 MB/s here): rounds are shared out over worker processes instead
+   const int max_nest = std::getenv("VERIF_C20_MAXNEST") ? std::atoi(std::getenv("VERIF_C20_MAXNEST")) : 200;
    long long overlap_ticks = 0, total_ticks = 0, alternations = 0, sharing_checked = 0, shared_constants = 0;
    for (int round = 0; round < rounds; ++round) {
       const int T = aux ? (round == 0 ? 2 : 4) : (C.thorough ? thread_counts_thorough[round % 6] : thread_counts_quick[(round + C.worker) % 5]);
@@ -276,7 +289,7 @@ static void body(Ctx& C)
          progs.push_back(std::make_unique<Prog>(generate_program(pr, o)));
          specs.push_back(LifeSpec { int(rng.below(60)), rng.next(), progs.back().get(), false, true, 0 });
          // every round prints a nest deeper than all earlier rounds of this process did
-         if (k % 2 == 0) specs.back().nest = std::min(200, 24 + 9 * round + int(rng.below(5)));
+         if (k % 2 == 0) specs.back().nest = std::min(max_nest, 24 + 9 * round + int(rng.below(5)));
       }
       // sequential reference traces (no delays, main thread, alone): in odd rounds before the threads run, in even rounds
       // after them -- process-wide state that only changes the first time something is done (a lazily built table, a
@@ -309,7 +322,7 @@ static void body(Ctx& C)
          const auto& want = ref[std::size_t(assign[std::size_t(t)])];
          C.count("lives_on_threads"); C.count("api_batches", L.api_batches); C.count("printed_bytes", L.printed);
          C.eval(hash_mix(hash_mix(specs[std::size_t(assign[std::size_t(t)])].seed, std::uint64_t(T)), std::uint64_t(t)));
-         C.count("mirror_requests", L.mirror_requests);
+         C.count("mirror_requests", L.mirror_requests); C.count("lives_whose_first_word_is_oversize", L.first_words_oversize);
          for (auto& mf : L.mirror_fails) C.viol("successor-lexicon-not-alone:" + mf.substr(0, mf.find(':', 11)), "a Lexicon built where an earlier Lexicon of the same thread had lived did not behave as if alone: " + mf);
          if (L.shadow_fails) C.viol("shadow-fails-under-concurrency", "a factory-built node did not report its operands while other Lexicons were in use on other threads");
          if (L.trace != want) {
@@ -357,7 +370,7 @@ static void body(Ctx& C)
    }
    C.count("shared_addresses_checked", sharing_checked); C.count("shared_addresses_that_are_constants", shared_constants);
    C.count("api_ticks", total_ticks); C.count("api_ticks_with_two_or_more_threads_inside", overlap_ticks); C.count("thread_alternations_in_ticket_order", alternations);
-   for (auto k : { "rounds", "lives_on_threads", "api_batches", "printed_bytes", "shared_addresses_checked", "rounds_with_sharing_check", "rounds_destroying_while_others_construct", "trace_bytes_compared", "rounds_reference_before_threads", "rounds_threads_before_reference", "mirror_requests" }) C.need(k);
+   for (auto k : { "rounds", "lives_on_threads", "api_batches", "printed_bytes", "shared_addresses_checked", "rounds_with_sharing_check", "rounds_destroying_while_others_construct", "trace_bytes_compared", "rounds_reference_before_threads", "rounds_threads_before_reference", "mirror_requests", "lives_whose_first_word_is_oversize" }) C.need(k);
    C.need("api_ticks_with_two_or_more_threads_inside", 100); C.need("thread_alternations_in_ticket_order", 100);
 }
 
